@@ -107,8 +107,9 @@ type Field struct {
 }
 
 type RecordDef struct {
-	Name   string
-	Fields []Field
+	Name    string // for an instantiation of a generic record: "GBox<int>"
+	Fields  []Field
+	Generic bool // an instantiation of a generic record declared by a RawDecl
 }
 
 type UCase struct {
@@ -117,8 +118,10 @@ type UCase struct {
 }
 
 type UnionDef struct {
-	Name  string
-	Cases []UCase
+	Name    string // for an instantiation of a generic union: "GOpt<int>"
+	Cases   []UCase
+	Generic bool  // an instantiation of a generic union declared by a RawDecl
+	TArg    *Type // its type argument
 }
 
 type Param struct {
